@@ -186,6 +186,8 @@ impl Machine {
                     }
                     g.log.push(Op::Took(v.clone()));
                 }
+                // Ready(Some) owes no wake-up: the consumer may poll again at will
+                self.root.0.fetch_add(1, Ordering::SeqCst);
                 Some(v)
             }
             Poll::Ready(None) => {
